@@ -135,3 +135,26 @@ func H_C12_honest_completion() {
 		vAssert(done, "every honest block delivered => complete")
 	}
 }
+
+// H_C12_gotMetadata_wellformed: as the step harness, but the validation of the info dictionary
+// is NOT cut: whatever bytes are assembled decode to a well-formed single-file info dictionary
+// (the decoder yields the value registered here), so that the only thing standing between a
+// forged dictionary and a usable torrent is the SHA-1 comparison.
+func H_C12_gotMetadata_wellformed() {
+	t, size := vMetaTorrent()
+	info := BInfo{Name: "x", PieceLength: 16384, Pieces: make([]byte, 20), Length: 100}
+	_ = vBencode(&info)
+	idx, msz := vU32("idx"), vU32("msz")
+	data := vBytes("data", 16384+1)
+	done, err := gotMetadata(t, idx, msz, data)
+	if done {
+		vReach("done")
+		vAssert(err == nil, "done comes without error")
+		vAssert(vSha1Eq(t.Info, t.Hash), "metadata accepted only if its SHA-1 is the info-hash")
+		vAssert(t.infoComplete == 1 && len(t.Info) == int(size), "accepted metadata is installed")
+		return
+	}
+	vReach("not-done")
+	vAssert(t.infoComplete == 0, "forged or incomplete metadata never makes the torrent usable")
+	vAssert(len(t.PieceHashes) == 0 && t.Pieces.Num() == 0 && len(t.inFlight) == 0, "no geometry is installed from unauthenticated metadata")
+}
